@@ -26,6 +26,14 @@ CHECKS = {
             "TLC checks that with trimming/expansion off the bytes between consecutive positions are exactly open delimiter + payload + close delimiter of the returned event (DOCTYPE up to keyword case/spacing), that spans tile the input and the final position is its length. TLC emits for every behaviour the positions and the concatenated rendering of all events; the harness compares buffer_position after every call and the bytes produced by Writer::write_event on slice and chunked sources. Corpus and generated traces are validated by TLC.",
             "Bounded scope; Writer::write_event is specified only for events read from the input (C09 covers constructors).",
             "DESIGN.md section 6 C08"),
+    "C10": ("TLA+ transcription of escape/unescape/parse_number (Escape.tla) with round-trip theorems model-checked; TLC-generated strings replayed on the real functions; real results (incl. all code points in both radices) validated by TLC",
+            "TLC checks on Escape.tla, for every string of <= N symbols over the five special characters, '#', 'x', ';', digits, letters, blank and a multi-byte character: unescape(escape_l(s)) = s for every level, the escaped form is free of the level's characters, no '&' => unchanged, success => every '&' closed. Every string is run through the real escape/partial_escape/minimal_escape/unescape (value, error-vs-value, borrowed flag, real round trip). The harness sweeps all code points 0..0x110400 in decimal, lower/upper hex and zero-padded spellings through the real unescape and TLC evaluates ValidScalar on every one of them, plus boundary spellings (signs, empty, overflow, missing ';') with output bytes checked against Utf8(n).",
+            "EscapeError variant is tagged I (the property only requires an error). Feature escape-html off. The harness decides 'result is exactly the character n' with char::from_u32 for the sweep; output bytes of boundary spellings are checked by TLC.",
+            "DESIGN.md section 6 C10"),
+    "C11": ("TLA+ spec of the attribute iterator (Attrs.tla) model-checked on all short tag contents and against constructed attribute lists with injected faults; replay on the real Attributes iterator; generated-list trace validation",
+            "TLC checks Attrs.tla (i) on every tag content of <= N bytes over {SP,TAB,=,\",',a,b,/} x XML/HTML x checks on/off: iteration ends and stays ended, every yielded key/value span is exact (delimited by the right quotes, no quote inside), HTML mode only adds, duplicate discipline; (ii) against attribute lists CONSTRUCTED from parts with one fault of each kind injected at every position, where the expected items (documented error, documented position, every well-formed attribute after the fault intact) are known by construction. All cases are iterated with the real iterator (to None and three calls beyond) and compared item by item; generated lists of 0-8 attributes with faults are validated by TLC. This check found the Duplicated-recovery defect repaired in /repo commit a46692e.",
+            "Bounded scope (N, MaxAttrs); traces are samples.",
+            "DESIGN.md section 6 C11"),
     "C12": ("TLA+ spec of read_to_end/read_text (loop over the reader machine) model-checked against a declarative tree-based reference; histories with skip calls replayed on all read_to_end variants; trace validation",
             "TLC explores documents of <= L tag-level fragments (repeated names, <a/>, '</a >', end-tag look-alikes inside comment/CDATA, truncated documents) x trim/expand configurations x skip after any Start (and flips), and checks the returned span, the position after the call, the failure kinds and the span delimiters against a reference derived from the declarative event stream. Every history is replayed on read_to_end, read_to_end_into, read_to_end_into_async and read_text with config() read back after success and failure; traces with random skip calls are validated by TLC.",
             "Skip calls are issued only right after a Start event (the documented precondition). Bounded scope.",
